@@ -450,6 +450,8 @@ m("auth-fallback-cache-returns-secondary-result", ["C16"],
 	return token, nil""", """	return fc.secondary.Set(ctx, registry, scheme, key, func(ctx context.Context) (string, error) {
 		return token, nil
 	})"""))
+m("auth-answers-challenge-of-redirect-target", ["C16"],
+  ("registry/remote/auth/client.go", """	if resp.Request != nil && resp.Request.URL != nil && resp.Request.URL.Host != req.URL.Host {""", """	if false {"""))
 m("auth-token-key-ignores-scopes", ["C16"],
   ("registry/remote/auth/client.go", """			attemptedKey = strings.Join(scopes, " ")
 			token, err := cache.GetToken(ctx, host, SchemeBearer, attemptedKey)""", """			attemptedKey = strings.Join(scopes, " ")
